@@ -97,6 +97,8 @@ def gen_spec(rnd, o, names_after, ncomp, flags):
     if t == '#':
         t = '#%d' % rnd.randint(1, ncomp)
     sp['ch'] = t
+    if t is not None and o.get('p_multichannel', 0) and rnd.random() < o['p_multichannel']:
+        sp['ch2'] = rnd.choice([c for c in ['a', 'b', '*'] if c != t] or ['a'])
     return sp
 
 
@@ -115,6 +117,8 @@ def gen_script(rnd, o, nm, names, ncomp, handlers, dyn, sops, flags):
             ops.append(['cancel_last'])
         elif op == 'stop':
             ops.append(['stop'])
+        elif op == 'flush':
+            ops.append(['flush'])
         elif op == 'raise':
             ops.append(['raise'])
             break
@@ -181,6 +185,8 @@ def gen_history(rnd, o, prog):
             if t == '#':
                 t = '#%d' % rnd.randint(1, ncomp)
             sp['ch'] = t
+            if t is not None and o.get('p_multichannel', 0) and rnd.random() < o['p_multichannel']:
+                sp['ch2'] = rnd.choice([x for x in ['a', 'b', '*'] if x != t] or ['a'])
             hist.append(['fire', c, sp])
             nfired += 1
         elif op == 'flush':
